@@ -37,7 +37,7 @@ man = {
     "engines": [{
         "name": "lean4-proof+correspondence", "path": "/verif/check",
         "serves_properties": [c["property_id"] for c in checks],
-        "kind_free_text": "Lean 4 theorems about a hand-written executable model (lean/SV/Model, lean/SV/Props) + differential correspondence run of the compiled model (svdriver) against the real code (harness/svharness) + oracle search for a failing input",
+        "kind_free_text": "Lean 4 theorems about a hand-written executable model (lean/SV/Model, lean/SV/Props) + differential correspondence run of the compiled model (svdriver) against the real code (harness/svharness) + oracle search for a failing input + reach measurement (coverage-instrumented build: new or modified code of the modelled functions that no request executes is reported)",
     }],
     "checks": checks,
     "not_applicable": [{"property_id": p, "reason": na.get(p, "check not built yet in this round; no claim is made (see DESIGN.md section 10 for the build order)")}
